@@ -877,6 +877,8 @@ class Engine:
         for _ in range(b):
           r = r * a
         return r
+      if getattr(self, 'on_pow', None) is not None:
+        return self.on_pow(ctx, a, b)
       raise Unsupported('symbolic power')
     raise Unsupported(f'arith {op}')
 
@@ -1450,8 +1452,10 @@ class Engine:
 
       enum_start = getattr(it, 'enum_start', None)
 
+      item_fn = getattr(it, 'item_fn', None)   # e.g. zip over several symbolic sequences
+
       def item_at(p):
-        v = codec.dec(seq[p])
+        v = item_fn(p) if item_fn is not None else codec.dec(seq[p])
         return v if enum_start is None else (p + enum_start, v)
 
       def pre(c):
